@@ -37,6 +37,7 @@ WHAT = {
     "P8": "table cells with pipes survive render (escape_cell) -> parse (split on unescaped pipes, unescape)",
     "P9": "tag lines are read word by word: '@word' -> tag 'word' (any characters), '#word' starts a comment, anything else is a ParserError",
     "P10": "every parse_* entry point can return a model for some text (it is not dead)",
+    "E8": "model constructors / add_* called by the parser with file text contain no assertion over that text (only type checks)",
     "E4": "every ParserError raised by the parser carries the current line",
     "E6": "parser terminates: no while loop; only call cycle is action_table <-> action_steps",
 }
@@ -346,6 +347,68 @@ def check_cell_roundtrip(chk, ix):
                              "splitting on unescaped pipes disagree" % (cells, line, parsed), file=esc.file, line=esc.lineno, stmt="def escape_cell"))
 
 
+def check_model_constructors(chk, ix):
+    """E8: the model constructors and add_* methods the parser calls with text taken from the file cannot fail with
+    an internal exception: evaluated abstractly with arbitrary strings / cell lists, every assert they reach is either
+    decided (true) or a type check; an assert over the CONTENT of the text (e.g. unique column names) would turn a
+    text-level oddity into an AssertionError instead of a ParserError."""
+    chk.rule("E8", WHAT["E8"])
+    mod = ix.module("behave.model")
+    targets = [("Table", "__init__", {"headings": "cells", "line": "int"}), ("Table", "add_row", {"row": "cells", "line": "int"}),
+               ("Row", "__init__", {"headings": "cells", "cells": "cells", "line": "int"}),
+               ("Step", "__init__", {"filename": "str", "line": "int", "keyword": "str", "step_type": "str", "name": "str"}),
+               ("Scenario", "__init__", {"filename": "str", "line": "int", "keyword": "str", "name": "str", "tags": "cells"}),
+               ("ScenarioOutline", "__init__", {"filename": "str", "line": "int", "keyword": "str", "name": "str", "tags": "cells"}),
+               ("Examples", "__init__", {"filename": "str", "line": "int", "keyword": "str", "name": "str", "tags": "cells"}),
+               ("Background", "__init__", {"filename": "str", "line": "int", "keyword": "str", "name": "str"}),
+               ("Feature", "__init__", {"filename": "str", "line": "int", "keyword": "str", "name": "str", "tags": "cells"}),
+               ("Rule", "__init__", {"filename": "str", "line": "int", "keyword": "str", "name": "str", "tags": "cells"})]
+    for cname, meth, spec in targets:
+        ci = mod.classes.get(cname)
+        f = ci.lookup(meth) if ci else None
+        if f is None:
+            raise AnalysisError("anchor missing: behave.model:%s.%s" % (cname, meth))
+        it = Interp(ix, stubs={"@with": "transparent"}, name="%s.%s" % (cname, meth))
+        st = State()
+        st.frames = []
+
+        def absval(kind):
+            if kind == "int":
+                return Top("line", True)
+            if kind == "str":
+                return PM.StrTop("text-from-file")
+            lst = HObj("list", kind="list", items=None, label="cells from the file")
+            lst.fields["@elem"] = PM.StrTop("cell")
+            lst.open = True
+            return st.alloc(lst)
+        if meth == "__init__":
+            me = st.alloc(HObj(ci, {}, open=True, label=cname.lower()))
+        else:
+            me = st.alloc(HObj(ci, {"headings": absval("cells"), "rows": absval("cells"), "line": Top("line", True), "modified": False},
+                               open=True, label=cname.lower()))
+        kwargs = {k: absval(v) for k, v in spec.items()}
+        try:
+            outs = it.call_function(st, f, [], kwargs, None, self_val=me)
+        except AnalysisError as e:
+            raise AnalysisError("%s.%s not evaluable with text from the file: %s" % (cname, meth, e))
+        chk.absorb(it)
+        chk.instance("E8")
+        bad = []
+        for a in sorted(it.stats.get("assumed_asserts", ())):
+            cond = a.split(": assert ", 1)[1]
+            if not cond.startswith("isinstance("):
+                bad.append(a)
+        for (s_, k, v) in outs:
+            if k == "raise" and (v.internal is not None or v.clsname() in ("AssertionError", "AttributeError", "IndexError", "KeyError", "TypeError")):
+                bad.append("%s (%s)" % (v.clsname(), v.origin))
+        if not bad:
+            chk.ok("E8", {"called by the parser": "%s.%s" % (cname, meth), "with": spec}, nontrivial_key=(cname, meth))
+        else:
+            chk.fail(Finding("E8", f.fullname, "%s.%s: %s" % (cname, meth, bad[0].split(": assert ", 1)[-1][:80]),
+                             "%s.%s, which the parser calls with text taken from the file, can fail internally depending on that text: %s" % (
+                                 cname, meth, "; ".join(bad[:3])), file=f.file, line=f.lineno, stmt="def " + meth))
+
+
 def check_entry_can_succeed(chk, ix, entries=("parse_feature", "parse_rule", "parse_scenario", "parse_steps")):
     """P10: every parse_* entry point has a line sequence on which it returns a model: the machine exploration of the
     entry must have at least one returning exit (otherwise no text whatsoever can be parsed through it)."""
@@ -424,6 +487,62 @@ def check_tag_line(chk, ix, tier="quick"):
             chk.fail(Finding("P9", f.fullname, "%r -> %r" % (line, got), "the tag line %r is read as %r; word by word it is %r (a '#' inside a "
                              "word belongs to the tag, only a word that starts with '#' begins a comment)" % (line, got, want),
                              file=f.file, line=f.lineno, stmt="def parse_tags"))
+
+
+def check_table_render_roundtrip(chk, ix):
+    """P8 through the renderer itself: ModelDescriptor.describe_table on a concrete table, every rendered line fed to
+    Parser.action_table: the re-parsed cells are the table's cells and all rendered lines have the same width."""
+    chk.rule("P8", WHAT["P8"])
+    dc = ix.cls("behave.model_describe:ModelDescriptor")
+    f = dc.lookup("describe_table")
+    pc = ix.cls("behave.parser:Parser")
+    a_table = pc.lookup("action_table")
+    tables = [(["a|b", "c"], [["x|y", "z"], ["1", "2|3|4"]]), (["h1", "h2"], [["", "long value"], ["|", "v"]])]
+    for headings, rows in tables:
+        for indentation in (None, "    "):
+            it = Interp(ix, name="describe_table")
+            it.fold_regex = True
+            it.int_sat = 100000
+            it.list_cap = 1000
+            st = State()
+            st.frames = []
+
+            def lst(v):
+                return st.alloc(HObj("list", kind="list", items=list(v)))
+            tab = st.alloc(HObj("TableTok", {"headings": lst(headings), "rows": lst([lst(r) for r in rows])}, label="table"))
+            outs = it.call_function(st, f, [tab] + ([indentation] if indentation else []), {}, None)
+            chk.absorb(it)
+            chk.instance("P8")
+            if len(outs) != 1 or outs[0][1] != "val" or not isinstance(outs[0][2], str):
+                raise AnalysisError("describe_table not foldable: %r" % ([(k, v) for _, k, v in outs][:2],))
+            text = outs[0][2]
+            lines = text.splitlines()
+            parsed = []
+            for line in lines:
+                got = []
+                stubs = {"Table": lambda i, s_, a, k, n, _g=got: (_g.append(a[0]), [(s_, "val", "TABLE")])[1],
+                         "model.Table": lambda i, s_, a, k, n, _g=got: (_g.append(a[0]), [(s_, "val", "TABLE")])[1]}
+                it2 = Interp(ix, stubs=stubs, name="action_table")
+                it2.fold_regex = True
+                it2.int_sat = 1000
+                it2.list_cap = 100
+                st2 = State()
+                st2.frames = []
+                me = st2.alloc(HObj(pc, {"table": None, "examples": None, "line": 3, "filename": "x.feature", "state": EnumVal("State", "TABLE")}, label="parser"))
+                o2 = it2.call_function(st2, a_table, [line], {}, None, self_val=me)
+                if len(o2) != 1 or o2[0][1] != "val" or len(got) != 1:
+                    parsed.append("not a table row: %r" % line)
+                    continue
+                v = got[0]
+                parsed.append(list(o2[0][0].obj(v).items) if isinstance(v, Ref) else list(v))
+            want = [headings] + rows
+            widths = {len(l) for l in lines}
+            if parsed == want and len(widths) == 1 and (not indentation or all(l.startswith(indentation + "|") for l in lines)):
+                chk.ok("P8", {"table": want, "rendered": lines}, nontrivial_key=(repr(want), indentation))
+            else:
+                chk.fail(Finding("P8", f.fullname, "%r -> %r" % (want, parsed), "describe_table renders the table %r as %r, which parses back as %r "
+                                 "(line widths %s): rendered tables must re-parse to the same cells and be aligned" % (want, lines, parsed, sorted(widths)),
+                                 file=f.file, line=f.lineno, stmt="def describe_table"))
 
 
 def check_tags_consumed(chk, ix, rule="P6"):
